@@ -821,6 +821,22 @@ def rt_shapes_grid(first_only=False, count=None, only=None):
                         return fails
                 except Exception:  # noqa: BLE001
                     pass
+    # Vmap built from in_axes (axis size inferred from the mapped parameters): declared shape and acceptance
+    if not only or only == "Vmap":
+        import equinox as eqx
+        for size, inner in ((5, (2,)), (1, (3,)), (4, ())):
+            n += 1
+            try:
+                locs = jnp.arange(float(size * max(1, int(np.prod(inner, dtype=int))))).reshape((size,) + inner) / 7.0
+                stacked = eqx.filter_vmap(lambda l: B.Affine(l, jnp.ones(inner) * 1.5))(locs)
+                b = B.Vmap(stacked, in_axes=eqx.if_array(0))
+                r = (f"declares shape {tuple(b.shape)}, expected {(size,) + inner}" if tuple(b.shape) != (size,) + inner else _accepts(b))
+            except Exception as ex:  # noqa: BLE001
+                r = f"raised {type(ex).__name__}: {str(ex)[:150]}"
+            if r:
+                fails.append(dict(what=f"Vmap(in_axes=if_array(0)) over {size} stacked Affine{inner}: {r}", case=dict(cls="Vmap", size=size, inner=list(inner))))
+                if first_only:
+                    return fails
     # three and four children (split points must be cumulative), every axis
     if not only or only in ("Concatenate", "Stack"):
         for s in ((3,), (2, 3), (2, 3, 2)):
